@@ -406,12 +406,6 @@ func Drive(id, tier string, seed uint64) int {
 	if p.Exhaustive != nil && p.Exhaustive(tier) {
 		ev.Coverage["exhaustive"] = true
 	}
-	inc := []string{}
-	for k, v := range ev.Inconcl {
-		inc = append(inc, fmt.Sprintf("%s (x%d)", k, v))
-	}
-	sort.Strings(inc)
-	ev.Coverage["inconclusive"] = inc
 	ev.Coverage["known_findings_seen"] = known
 	ev.Violations = len(viols)
 
@@ -421,6 +415,12 @@ func Drive(id, tier string, seed uint64) int {
 			broken = err.Error()
 		}
 	}
+	inc := []string{}
+	for k, v := range ev.Inconcl {
+		inc = append(inc, fmt.Sprintf("%s (x%d)", k, v))
+	}
+	sort.Strings(inc)
+	ev.Coverage["inconclusive"] = inc
 	if len(viols) == 0 && broken == "" {
 		if evals == 0 || distinct < 2 || len(samples) == 0 {
 			broken = fmt.Sprintf("monitors observed nothing (evaluations=%d distinct=%d samples=%d)", evals, distinct, len(samples))
